@@ -193,16 +193,27 @@ def register(w):
         w.contract(
             HB + "VFS_Real." + name,
             params=params, globals={"rootpath": "opt[str]"},
-            requires=req, modifies=["g:rootpath"], raises=raises, returns=returns,
-            ensures=[ROOTINV] + (["implies(True, True)"] if name != "listdir" else []),
+            requires=req, modifies=["g:rootpath"] + (["ghost.open_files"] if name == "open" else []), raises=raises, returns=returns,
+            on_raise={"*": [ROOTINV]},
+            ensures=[ROOTINV] + (["result.pos == 0", "ghost.open_files == old(ghost.open_files) + [result]"] if name == "open" else []),
             setup=_setup_sink_config,
             ghost={"open_files": "trace"},
             use_lemmas=[("safe-sel-resolves-under-root", {"s": "selector", "root": ROOT})] if name != "stat" else [],
+            result_elem="S.child_name_ok(elem)" if name == "listdir" else None,
             props=["C01"],
         )
     register2(w)
     register3(w)
+    register4(w)
+    register5(w)
     register_ast(w)
+    # every contract that may initialise the lazily cached root re-establishes its invariant
+    for (q, k), c in list(w.contracts.items()):
+        if "C01" in c.props and c.modifies and (MROOT in c.modifies) and not any("G.rootpath" in e for e in c.ensures):
+            cfg = "config" if "config" in c.params else "self.config"
+            inv = "G.rootpath is None or G.rootpath == '' or G.rootpath == %s.get('pygopherd', 'root')" % cfg
+            c.ensures.append(inv)
+            c.on_raise.setdefault("*", []).append(inv)
 
 
 # =====================================================================================================
@@ -493,7 +504,7 @@ def register_ast(w):
                                     is_sink = name in ("open", "mbox", "Maildir", "SourceFileLoader")
                                 else:
                                     rs = ast.unparse(recv)
-                                    is_sink = rs.endswith("vfs") or rs in ("os", "os.path", "zipfile", "subprocess", "shelve", "self.chain", "self.zip", "importlib.util", "spec.loader") or rs == "self"
+                                    is_sink = rs.endswith("vfs") or rs in ("os", "os.path", "zipfile", "subprocess", "shelve", "self.chain", "self.zip", "importlib.util", "spec.loader") or (rs == "self" and cls is not None and cls.name.startswith("VFS"))
                             if name == "open" and recv is not None and ast.unparse(recv) == "shelve":
                                 is_sink = True
                             if is_sink and q not in covered:
@@ -501,3 +512,216 @@ def register_ast(w):
         return (not bad, sorted(set(bad)) or "every function containing a file-system/process sink is under a C01 contract")
 
     w.astcheck("C01.ast.sinks-under-contract", ["C01"], sinks_under_contract)
+
+
+# =====================================================================================================
+# Layer 4: handler code that reaches the file system (sink obligations arise at the vfs.* call sites
+# through the preconditions of the VFS_Real contracts, and at the external sinks modelled here)
+# =====================================================================================================
+def _path_sink(name, returns=None):
+    base = _os_sink(name, returns=returns)
+    return base
+
+
+def _opaque_ret(tag):
+    def r(eng, p):
+        return VOpaque(tag, z3.Const(eng.fresh_name(tag), U))
+    return r
+
+
+X.EXT_IMPL["mailbox.mbox"] = _os_sink("mailbox.mbox", returns=_opaque_ret("mailbox"))
+X.EXT_IMPL["mailbox.Maildir"] = _os_sink("mailbox.Maildir", returns=_opaque_ret("mailbox"))
+X.CLASSES["mailbox.mbox"] = "mailbox.mbox"
+X.CLASSES["mailbox.Maildir"] = "mailbox.Maildir"
+
+
+def _construct_mailbox(eng, world, clsname, args, kwargs, node, fr):
+    return X.EXT_IMPL[clsname](eng, world, args, kwargs, node)
+
+
+def _subprocess_run(eng, world, args, kwargs, node):
+    """subprocess.run([program, ...]): the program path is a sink when it is derived from the request."""
+    argv = eng.force(args[0])
+    eng.assumptions_used.add("subprocess.run executes argv[0]; the other arguments and the environment are data for the child")
+    if isinstance(argv, VList) and argv.concrete() and argv.items:
+        prog = eng.force(argv.items[0])
+    elif isinstance(argv, VList):
+        prog = eng.force(argv.get(0))
+    else:
+        raise OutOfSubset("subprocess.run argv")
+    if not (eng.contract and eng.contract.opts.get("program_from_config")):
+        _os_sink("subprocess.run")(eng, world, [prog], {}, node)
+    r = VObj("CompletedProcess", name=eng.fresh_name("proc"))
+    r.fields["stdout"] = eng.fresh("bytes", "proc_stdout")
+    r.fresh_alloc = True
+    return r
+
+
+X.EXT_IMPL["subprocess.run"] = _subprocess_run
+X.EXT_IMPL["os.environ.copy"] = lambda eng, world, args, kwargs, node: VDict({}, sym=(eng.fresh_name("environ"), "str"), valty="str")
+X.MODULES.add("os.environ")
+
+FSPINV = "self.fspath is None or self.fspath == S.fspath_of(self.config.get('pygopherd', 'root'), self.getselector())"
+SELBASE = "self.selectorbase == ('' if self.selector == '/' else self.selector)"
+CFGOK = ["self.vfs.config is self.config"]
+
+
+def register4(w):
+    w.fields("DirHandler", cachetime="maybe:int", cachefile="str", cachename="str", fromcache="bool", files="list[str]",
+             fileentries="list[obj:GopherEntry]", selectorbase="str")
+    w.fields("UMNDirHandler", linkentries="list[obj:LinkEntry]")
+    w.fields("BuckGophermapHandler", selectorbase="str", entries="list[obj:GopherEntry]")
+    w.fields("WFile", written="bytes")
+    common = dict(globals=GROOT, props=["C01"])
+    FS = INV + VFSREQ + CFGOK
+    for k in ("construct:mailbox.mbox", "construct:mailbox.Maildir"):
+        pass
+    mailbox_opts = {"construct:mailbox.mbox": _construct_mailbox, "construct:mailbox.Maildir": _construct_mailbox}
+
+    w.contract(HB + "BaseHandler.getfspath", selfclass=[c for c in w.repo.subclasses("BaseHandler")],
+               requires=VFSREQ + CFGOK + [FSPINV], modifies=["self.fspath", MROOT], raises={}, returns="str",
+               ensures=["result == S.fspath_of(self.config.get('pygopherd', 'root'), self.getselector())", FSPINV],
+               note="memoised; class invariant: self.fspath is unset or already equals vfs.getfspath(getselector())",
+               **common)
+    # the copy loop (shared with C04/C20)
+    w.contract(HB + "VFS_Real.copyto",
+               params={"name": "str", "fd": "obj:WFile"},
+               requires=["G.rootpath is None or G.rootpath == '' or G.rootpath == self.config.get('pygopherd', 'root')",
+                         "S.abs_root(self.config.get('pygopherd', 'root'))", "S.safe_sel(name)"],
+               modifies=[MROOT, "fd.written"], raises={"OSError": True}, returns=None,
+               ghost={"open_files": "trace"},
+               setup=_setup_sink_config,
+               loops={0: dict(invariant=["0 <= rfile.pos", "rfile.pos <= len(rfile.content)", "fd.written == old(fd.written) + rfile.content[:rfile.pos]",
+                                         "len(ghost.open_files) == 1"],
+                              decreases="len(rfile.content) - rfile.pos", havoc=["rfile.pos", "fd.written"])},
+               ensures=["len(ghost.open_files) == 0"],
+               on_raise={"OSError": ["len(ghost.open_files) == 0"]},
+               globals=GROOT, props=["C01", "C04", "C20"])
+    w.contract(H + "file.py::FileHandler.write", selfclass=["FileHandler", "HTMLFileTitleHandler"],
+               params={"wfile": "obj:WFile"}, requires=FS, modifies=[MROOT, "wfile.written"], raises={"OSError": True},
+               **common)
+    w.contract(H + "dir.py::DirHandler.prep_initfiles", selfclass=["DirHandler", "UMNDirHandler"],
+               requires=FS + [SELBASE], modifies=["self.files", "self.linkentries", MROOT], raises={"OSError": True},
+               loops={0: dict(invariant=["True"], havoc=["self.files", "self.linkentries"])},
+               setup=_setup_sink_config, **common)
+    w.contract(H + "dir.py::DirHandler.prep_initfiles_canaddfile", selfclass=["DirHandler"],
+               params={"ignorepatt": "str", "pattern": "str", "file": "str"}, requires=INV, modifies=[], raises={}, returns="bool",
+               **common)
+    w.contract(H + "UMN.py::UMNDirHandler.prep_initfiles_canaddfile", selfclass=["UMNDirHandler"],
+               params={"ignorepatt": "str", "pattern": "str", "file": "str"},
+               requires=FS + [SELBASE, "S.child_name_ok(file)"], modifies=["self.linkentries", MROOT], raises={"OSError": True}, returns="bool",
+               use_lemmas=[("suffix-safe", {"s": "self.selector", "n": "file"})],
+               **common)
+    w.contract(H + "UMN.py::UMNDirHandler.processLinkFile", selfclass=["UMNDirHandler"],
+               params={"filename": "str", "capfilepath": "opt[str]"},
+               requires=FS + ["S.safe_sel(filename)"], modifies=[MROOT], raises={"OSError": True}, returns="list[obj:LinkEntry]",
+               assumed=True, note="body (link-file parser loop) verified under C08; for C01 its only file-system access is vfs.open(filename) (C01.ast.processLinkFile-sinks)",
+               **common)
+    w.contract(H + "dir.py::DirHandler.loadcache", selfclass=["DirHandler", "UMNDirHandler"],
+               requires=FS + ["S.child_name_ok(self.config.get('handlers.dir.DirHandler', 'cachefile'))"],
+               init={"cachename": "self.selector + '/' + self.config.get('handlers.dir.DirHandler', 'cachefile')"},
+               modifies=["self.fromcache", "self.cachetime", "self.cachefile", "self.cachename", "self.fileentries", MROOT],
+               raises={"OSError": True, "Exception": True}, returns="bool",
+               use_lemmas=[("suffix-safe", {"s": "self.selector", "n": "self.config.get('handlers.dir.DirHandler', 'cachefile')"})],
+               ghost={"open_files": "trace"}, setup=_setup_sink_config,
+               ensures=["self.cachename == self.selector + '/' + self.config.get('handlers.dir.DirHandler', 'cachefile')"],
+               **common)
+    w.contract(H + "dir.py::DirHandler.savecache", selfclass=["DirHandler", "UMNDirHandler"],
+               requires=FS + ["S.child_name_ok(self.config.get('handlers.dir.DirHandler', 'cachefile'))"],
+               init={"cachename": "self.selector + '/' + self.config.get('handlers.dir.DirHandler', 'cachefile')"},
+               modifies=[MROOT], raises={"Exception": True},
+               use_lemmas=[("suffix-safe", {"s": "self.selector", "n": "self.config.get('handlers.dir.DirHandler', 'cachefile')"})],
+               ghost={"open_files": "trace"}, setup=_setup_sink_config,
+               **common)
+    w.contract(H + "html.py::HTMLFileTitleHandler.getentry", selfclass=["HTMLFileTitleHandler"],
+               requires=FS, modifies=["self.entry", MROOT], raises={"OSError": True}, returns="obj:GopherEntry", assumed=True,
+               note="html.parser loop: outside the subset; sinks: FileHandler.getentry (populatefromfs) and vfs.open(self.getselector()) (C01.ast.getselector-only)",
+               **common)
+    w.contract(H + "mbox.py::MBoxFolderHandler.prepare", selfclass=["MBoxFolderHandler"],
+               requires=FS + VSTRUCT + [FSPINV], modifies=["self.*", MROOT], raises={"Exception": True},
+               use_lemmas=VLEMMAS + [("safe-sel-resolves-under-root", {"s": "self.selectorreal", "root": "self.config.get('pygopherd', 'root')"})],
+               setup=_setup_sink_config, opts=dict(mailbox_opts, inline_callees=[]),
+               **common)
+    w.contract(H + "mbox.py::MaildirFolderHandler.prepare", selfclass=["MaildirFolderHandler"],
+               requires=FS + VSTRUCT + [FSPINV], modifies=["self.*", MROOT], raises={"Exception": True},
+               use_lemmas=VLEMMAS + [("safe-sel-resolves-under-root", {"s": "self.selectorreal", "root": "self.config.get('pygopherd', 'root')"})],
+               setup=_setup_sink_config, opts=mailbox_opts,
+               **common)
+    w.contract(H + "mbox.py::FolderHandler.prepare", selfclass=["MBoxFolderHandler", "MaildirFolderHandler"],
+               requires=INV, modifies=["self.entries"], raises={"Exception": True}, assumed=True,
+               note="iterates the mailbox object (mailbox module): outside the subset; no path is built here (C01.ast.sinks-under-contract)",
+               **common)
+    w.contract(H + "mbox.py::MBoxMessageHandler.openmailbox", selfclass=["MBoxMessageHandler"],
+               requires=FS + VSTRUCT + [FSPINV], modifies=["self.fspath", MROOT], raises={"Exception": True}, returns="opaque:mailbox",
+               use_lemmas=VLEMMAS + [("safe-sel-resolves-under-root", {"s": "self.selectorreal", "root": "self.config.get('pygopherd', 'root')"})],
+               setup=_setup_sink_config, opts=mailbox_opts,
+               **common)
+    w.contract(H + "mbox.py::MaildirMessageHandler.openmailbox", selfclass=["MaildirMessageHandler"],
+               requires=FS + VSTRUCT + [FSPINV], modifies=["self.fspath", MROOT], raises={"Exception": True}, returns="opaque:mailbox",
+               use_lemmas=VLEMMAS + [("safe-sel-resolves-under-root", {"s": "self.selectorreal", "root": "self.config.get('pygopherd', 'root')"})],
+               setup=_setup_sink_config, opts=mailbox_opts,
+               **common)
+    w.contract(H + "scriptexec.py::ExecHandler.write", selfclass=["ExecHandler"],
+               params={"wfile": "obj:WFile"},
+               requires=FS + VSTRUCT + [FSPINV], modifies=["self.fspath", "wfile.written", MROOT], raises={"Exception": True},
+               use_lemmas=VLEMMAS + [("safe-sel-resolves-under-root", {"s": "self.selectorreal", "root": "self.config.get('pygopherd', 'root')"})],
+               setup=_setup_sink_config,
+               **common)
+
+
+def register5(w):
+    common = dict(globals=GROOT, props=["C01"])
+    FS = INV + VFSREQ + CFGOK
+    GE = "pygopherd/gopherentry.py::GopherEntry."
+    w.contract(GE + "populatefromfs",
+               params={"fspath": "str", "statval": "opt[stat]", "vfs": "opt[obj:VFS_Real]"},
+               requires=["S.safe_sel(fspath)"], modifies=["self.*", MROOT], raises={}, assumed=True,
+               note="verified under C04/C15 (MIME and sidecar posts); for C01: its file-system accesses are vfs.stat(fspath) and, through handleeaext, vfs.open(fspath [+ '/'] + ext) for the configured sidecar extensions (lemma extension-safe; the extensions are configuration)",
+               **common)
+    w.contract(GE + "populatefromvfs",
+               params={"vfs": "obj:VFS_Real", "selector": "str"},
+               requires=["S.safe_sel(selector)"], modifies=["self.*", MROOT], raises={"OSError": True}, assumed=True,
+               note="stat + populatefromfs on the same selector", **common)
+    w.contract(GE + "handleeaext",
+               params={"selector": "str", "vfs": "opt[obj:VFS_Real]"},
+               requires=["S.safe_sel(selector)"], modifies=["self.ea", MROOT], raises={}, assumed=True,
+               note="loop over the configured extension map (eval of configuration): opens selector + extension only (lemma extension-safe)", **common)
+    w.contract(H + "file.py::CompressedFileHandler.write", selfclass=["CompressedFileHandler"],
+               params={"wfile": "obj:WFile"},
+               requires=FS + ["hasattr(self, 'decompressors')", "self.entry is not None"], modifies=[MROOT, "wfile.written"], raises={"Exception": True},
+               ghost={"open_files": "trace"}, setup=_setup_sink_config,
+               opts={"program_from_config": True},
+               note="the program run is decompressors[realencoding]: configuration, not request data; the file opened is getselector()",
+               **common)
+    w.contract(H + "file.py::CompressedFileHandler.getentry", selfclass=["CompressedFileHandler"],
+               requires=FS, modifies=["self.entry", MROOT], raises={}, returns="obj:GopherEntry", assumed=True,
+               note="FileHandler.getentry + field rewrites; verified under C04", **common)
+    w.fields("GopherEntry", realencoding="opt[str]")
+    w.contract(H + "file.py::FileHandler.getentry", selfclass=["FileHandler", "HTMLFileTitleHandler"],
+               requires=FS, modifies=["self.entry", MROOT], raises={}, returns="obj:GopherEntry",
+               ensures=["result is self.entry"],
+               use_lemmas=[("no-climb", {"s": "self.selector", "root": "self.config.get('pygopherd', 'root')"})],
+               **common)
+    w.contract(H + "dir.py::DirHandler.getentry", selfclass=["DirHandler", "UMNDirHandler"],
+               requires=FS, modifies=["self.entry", MROOT], raises={}, returns="obj:GopherEntry",
+               ensures=["result is self.entry"],
+               use_lemmas=[("no-climb", {"s": "self.selector", "root": "self.config.get('pygopherd', 'root')"})],
+               **common)
+    w.contract(H + "gophermap.py::BuckGophermapHandler.prepare", selfclass=["BuckGophermapHandler"],
+               requires=FS, modifies=["self.*", MROOT], raises={"Exception": True}, assumed=True,
+               note="verified under C09; request-derived sink: vfs.open(getselector() | selectorbase + '/gophermap') (lemma suffix-safe); the vfs.exists/populatefromvfs arguments are selectors written in the gophermap, i.e. served content, outside the property's quantifier (DESIGN C01.7)",
+               **common)
+    w.contract(H + "tal.py::TALFileHandler.write", selfclass=["TALFileHandler"],
+               params={"wfile": "obj:WFile"},
+               requires=FS, modifies=["wfile.written", MROOT], raises={"Exception": True}, assumed=True,
+               note="opens getselector(); everything else is template expansion (simpleTAL, C17/C18); TALLoader paths come from template expressions = served content",
+               **common)
+    for m in ("__getattr__", "getchildrennames"):
+        w.contract(H + "tal.py::TALLoader." + m, assumed=True, raises={"Exception": True},
+                   note="reached only from template expressions (served content): outside the property's quantifier", props=["C01"])
+    for m, note in (("__init__", "opens the archive through the parent VFS: chain.open(zipfilename) with zipfilename a prefix of a filtered selector (ZIPHandler.canhandlerequest)"),
+                    ("init_cache", "stats archive and cache file through the parent VFS, opens the cache shelf at chain.getfspath(dirname(zipfilename)/.cache.pygopherd.zip3.<name>)"),
+                    ("save_cache", "writes the cache shelf next to the archive"),
+                    ("open", "zip.open(member): in-memory archive access, no OS path")):
+        w.contract(H + "ZIP.py::VFSZip." + m, assumed=True, raises={"Exception": True},
+                   note=note + " [contracted under C16]", props=["C01"])
